@@ -122,14 +122,36 @@ func cmdCheck(args []string) int {
 	}
 	dir, _ := os.MkdirTemp("", "govc-")
 	defer os.RemoveAll(dir)
-	for _, k := range loadKnown(*known) {
-		if k.Property == *prop && k.Status == "known" {
-			noRetry[k.Obligation] = true
+	var assumptions []string
+	{
+		mine, elsewhere := map[string]bool{}, map[string]string{}
+		for _, k := range loadKnown(*known) {
+			if k.Status != "known" {
+				continue
+			}
+			if k.Property == *prop {
+				noRetry[k.Obligation] = true
+				mine[k.Obligation] = true
+			} else {
+				elsewhere[k.Obligation] = k.Property
+			}
+		}
+		// an obligation that is an open known finding of another property is decided and reported by that property's
+		// check: it is not solved again here
+		for _, r := range results {
+			var keep []*Obl
+			for _, o := range r.Obls {
+				if other, ok := elsewhere[o.Name]; ok && !mine[o.Name] {
+					assumptions = append(assumptions, fmt.Sprintf("obligation %s is not counted here: it is an open known finding of property %s and is reported by that property's check", o.Name, other))
+					continue
+				}
+				keep = append(keep, o)
+			}
+			r.Obls = keep
 		}
 	}
 	verdicts := dischargeAll(results, dir, timeout, *tier == "thorough", workers())
 	kfs := loadKnown(*known)
-	var assumptions []string
 	knownBy := map[string]KnownFinding{}
 	// obligations recorded as open findings of another property are reported there, not here
 	knownElsewhere := map[string]string{}
